@@ -241,6 +241,9 @@ def run(c):
         # ---- 4. direction B: the recorded random run of restarts validated by TLC against HardforkTrace.tla
         lines = [l for l in open(tracepath) if l.strip()] if os.path.exists(tracepath) else []
         if len(lines) < 150:
+            if c.violations or c.known_hits:      # a harness that found violations may have stopped early: the verdict stands without the trace
+                c.notes.append("random restart run too short for trace validation: %d events" % len(lines))
+                return
             raise vlib.Infra("random restart run too short: %d events" % len(lines))
         # diagnostic configuration first (it implies the verdict configuration): every start decision, version and format as in Hardfork.tla
         ok, matched, total, tres = vlib.validate_trace(SPEC_DIR, "HardforkTrace", "HardforkTrace_strict.cfg", c.work, tracepath, timeout=1500)
